@@ -292,4 +292,10 @@ func rulesC02(e *Engine, r *Report) {
 		}
 		r.Min("R02.7", "return-true path classes of canDelete", n, 2)
 	}
+	// ---------------------------------------------------------------- R02.8
+	r.Rule("R02.8", "the receiver never claims parts of content it does not hold: `part already received?` (the answer the sender's transmission recovery trusts) says yes only for a companion range of equal rename, hash and predecessor, or for a known, non-failed file with the SAME hash and rename - a delivered older version of the name must not vouch for a new one; the count stops at the first part not held")
+	if sc2 := e.stageConsts(r, "R02.8"); sc2.ok {
+		e.checkPartReceived(r, "R02.8", sc2)
+		e.checkReceivedLeading(r, "R02.8")
+	}
 }
